@@ -148,6 +148,30 @@ def parse_mir(text):
     return fns
 
 
+class _M:
+    def __init__(s, *g):
+        s.g = g
+
+    def group(s, i):
+        return s.g[i - 1]
+
+
+def split_cast(t):
+    """`OPERAND as TYPE (Kind)` split at the FIRST top-level ` as ` (the type may itself contain `<X as Trait>`)"""
+    mk = re.search(r' \((\w+(?:\([\w, ]*\))?)\)$', t)
+    if not mk or not re.match(r'(copy|move|const) ', t):
+        return None
+    body, depth = t[:mk.start()], 0
+    for i, ch in enumerate(body):
+        if ch in '([{<' and not (ch == '<' and body[i - 1:i] == '-'):
+            depth += 1
+        elif ch in ')]}' or (ch == '>' and body[i - 1:i] not in ('-', '=')):
+            depth -= 1
+        elif depth == 0 and body.startswith(' as ', i):
+            return _M(body[:i], body[i + 4:], mk.group(1))
+    return None
+
+
 def norm(t):
     """strip module paths in front of type names: core::mem::MaybeUninit -> MaybeUninit, iter::GenericArrayIter -> GenericArrayIter"""
     return re.sub(r'(?<![\w:])(?:[a-z_][a-z0-9_]*::)+(?=[A-Z])', '', t)
@@ -162,12 +186,26 @@ class Arr:
         return 'Arr(%s)' % s.name
 
 
-class ArrRef:
+class _Ptr:
+    """pointer-like values carry a write permission ("provenance"): 'mut' (derived from an owner or a `&mut` borrow only), 'shared' (some step
+    of the derivation was a shared `&` borrow: writing through it, or turning it into `&mut`, is undefined behaviour), None (not tracked)"""
+    prov = None
+
+
+def with_prov(v, prov):
+    if isinstance(v, _Ptr) and prov is not None and v.prov != prov:
+        import copy
+        v = copy.copy(v)
+        v.prov = prov
+    return v
+
+
+class ArrRef(_Ptr):
     def __init__(s, arr):
         s.arr = arr
 
 
-class Slice:
+class Slice(_Ptr):
     def __init__(s, arr, start, end, stride=None):
         s.arr, s.start, s.end, s.stride = arr, start, end, stride
 
@@ -202,7 +240,7 @@ def free_vars(e, _cache={}):
     return out
 
 
-class ElemPtr:
+class ElemPtr(_Ptr):
     def __init__(s, arr, idx, cast=None):
         s.arr, s.idx, s.cast = arr, idx, cast
 
@@ -212,7 +250,7 @@ class Elem:
         s.arr, s.idx = arr, idx
 
 
-class Ref:
+class Ref(_Ptr):
     def __init__(s, cell, path):
         s.cell, s.path = cell, path
 
@@ -635,6 +673,21 @@ class Exec:
             return s.resolve(st, fr, pl[1])
         raise NotImplementedError('place kind ' + k)
 
+    def place_prov(s, st, fr, pl):
+        """write permission of a place: an owned local (and its fields) may be written; behind a pointer, what the pointer allows"""
+        k = pl[0]
+        if k == 'local':
+            return 'mut'
+        if k == 'deref':
+            try:
+                v = s.load(st, fr, pl[1])
+            except NotImplementedError:
+                return None
+            return getattr(v, 'prov', None) if isinstance(v, _Ptr) else ('mut' if isinstance(v, (BoxVal, BlockPtr)) else None)
+        if k in ('field', 'downcast', 'index'):
+            return s.place_prov(st, fr, pl[1])
+        return None
+
     def load(s, st, fr, pl):
         cell, path = s.resolve(st, fr, pl)
         if cell == 'val':
@@ -761,18 +814,23 @@ class Exec:
                 return s.slice_len(st, v)
             raise NotImplementedError('PtrMetadata of ' + str(type(v)))
         if t.startswith('&'):
+            bk = re.match(r'^&(raw mut |raw const |mut )?', t).group(1)
             pl = s.parse_place(re.sub(r'^&(raw mut |raw const |mut )?', '', t))
+            base = s.place_prov(st, fr, pl)
+            if bk == 'mut ':
+                s.require(st, z3.BoolVal(base != 'shared'), 'mutable reference created from a pointer that was derived through a shared borrow (writes through it are undefined behaviour)', '%s (&mut borrow)' % s.cur_fn.name.split('>::')[-1])
+            prov = 'shared' if bk is None else ('mut' if bk == 'mut ' else base)
             cell, path = s.resolve(st, fr, pl)
             if cell == 'val':
-                return path
+                return with_prov(path, prov)
             try:
                 tgt = st.get(cell, path)
             except (KeyError, TypeError):
                 tgt = None
             if isinstance(tgt, Arr):
-                return ArrRef(tgt)
-            return Ref(cell, path)
-        m = re.fullmatch(r'(.+) as (.+) \((\w+(?:\([\w, ]*\))?)\)', t)
+                return with_prov(ArrRef(tgt), prov)
+            return with_prov(Ref(cell, path), prov)
+        m = split_cast(t)
         if m:
             v = s.operand(st, fr, m.group(1))
             ty = m.group(2)
@@ -783,13 +841,15 @@ class Exec:
                 if ml and isinstance(v, (Opaque, Ref)) and ml.group(1) == '0':
                     return Slice(Arr('empty', bv(0)), bv(0), bv(0))   # &[X; 0] -> &[X]
                 if ml and isinstance(v, ArrRef):
-                    return Slice(v.arr, bv(0), v.arr.len)
+                    return with_prov(Slice(v.arr, bv(0), v.arr.len), v.prov)
                 if ml and isinstance(v, Opaque):
                     return Slice(Arr('const', bv(int(ml.group(1)))), bv(0), bv(int(ml.group(1))))
             if isinstance(v, ElemPtr) and re.search(r'GenericArray<', ty):
-                return ElemPtr(v.arr, v.idx, cast=norm(ty))
+                return with_prov(ElemPtr(v.arr, v.idx, cast=norm(ty)), v.prov)
             if isinstance(v, ArrRef) and re.fullmatch(r'\*(const|mut) (T|MaybeUninit<T>)', norm(ty)):
-                return ElemPtr(v.arr, bv(0))
+                return with_prov(ElemPtr(v.arr, bv(0)), v.prov)
+            if 'Transmute' in m.group(3) and isinstance(v, _Ptr) and norm(ty).startswith('&mut'):
+                s.require(st, z3.BoolVal(v.prov != 'shared'), 'mutable reference created (transmute) from a pointer that was derived through a shared borrow', 'transmute')
             return v
         m = re.fullmatch(r'discriminant\((.+)\)', t)
         if m:
@@ -1385,7 +1445,28 @@ class Exec:
 
     # ---------------------------------------------------------------- calls
     def call(s, st, callee, args, where):
+        outs = s.call0(st, callee, args, where)
+        # a pointer computed from a pointer keeps the write permission of its source
+        src = next((a for a in args if isinstance(a, _Ptr) and not isinstance(a, Ref)), None)
+        if src is not None and src.prov is not None and s.find_fn(callee) is None:
+            outs = [(s1, k, s._spread_prov(v, src.prov) if k == 'ret' else v) for (s1, k, v) in outs]
+        return outs
+
+    def _spread_prov(s, v, prov):
+        if isinstance(v, _Ptr) and not isinstance(v, Ref):
+            return with_prov(v, prov) if v.prov is None else v
+        if isinstance(v, dict) and '__closure__' not in v and v.get('kind') is None:
+            return {k: s._spread_prov(x, prov) for k, x in v.items()}
+        if isinstance(v, Enum):
+            return Enum(v.variant, s._spread_prov(v.fields, prov))
+        return v
+
+    def call0(s, st, callee, args, where):
         cn = norm(callee)
+        if re.search(r'from_raw_parts_mut::<', cn) and not re.search(r'slice_from_raw_parts_mut', cn) and isinstance(args[0], _Ptr):
+            s.require(st, z3.BoolVal(args[0].prov != 'shared'), 'mutable slice created from a pointer that was derived through a shared borrow (writes through it are undefined behaviour)', where)
+        if (re.search(r'(^|::)write::<T>$', cn) or re.search(r'<impl \*mut (T|MaybeUninit<T>)>::write$', cn)) and args and isinstance(args[0], _Ptr):
+            s.require(st, z3.BoolVal(args[0].prov != 'shared'), 'write through a pointer that was derived through a shared borrow (undefined behaviour)', where)
         # stubs that take precedence over the crate's own bodies (hex encoder contract, the 2N-byte scratch buffer)
         if re.match(r'^hex_encode(_fallback)?::<UPPER>$', cn):
             src, dst = args
@@ -2057,6 +2138,9 @@ class Exec:
     # ---------------------------------------------------------------- one function body
     def run_fn(s, st, fn, args):
         s.fns_run.add(fn.name + (' [CTFE]' if fn.ctfe else ''))
+        if len(getattr(fn, 'ptypes', [])) == len(args):      # untracked pointer arguments take the permission their parameter type grants
+            args = [with_prov(a, 'mut' if t_.startswith('&mut ') else 'shared') if isinstance(a, _Ptr) and not isinstance(a, Ref) and a.prov is None and t_.startswith('&') and not t_.startswith('&raw') else a
+                    for a, t_ in zip(args, fn.ptypes)]
         fr = {p: st.new_cell(a) for p, a in zip(fn.params, args)}
         results, work = [], [(st, fr, 'bb0')]
         while work:
